@@ -52,6 +52,29 @@ CLAIMED: dict[str, tuple[str, str, str, str, str]] = {
         "save/restore pairing on the CFG shape + who-may-write lint over all functions",
         "DESIGN §5 C23",
     ),
+    "C24": (
+        "other",
+        "Decides: the unitary pass looks at statements and branch predicates of every block and at every call argument; "
+        "_check_call's acceptance test equals 'some qubit argument and context flags not a subset of callee flags' on all "
+        "8x8x2 cases; the argument classifier is exact on all lists up to length 3; nested with-blocks combine the enclosing "
+        "flags; dagger guards hold for all 8 flag sets; flags flow decorator->CFG->pass->HUGR metadata; the qubit finder "
+        "never prunes. Not decided: the set of paths of the built CFG.",
+        "Trusted: ast parser, enum.Flag semantics as modelled in gsa/absint/flagabs.py (a in b <=> a&b==a), the mini "
+        "interpreter's fragment (outside it the obligation is UNDECIDED, not a verdict).",
+        "finite-domain abstract evaluation over flag sets + traversal-completeness and must-call rules on the CFG",
+        "DESIGN §5 C24",
+    ),
+    "C33": (
+        "other",
+        "Decides: each gate function reads the live flag and must-raise GuppyError exactly when disabled; every construction "
+        "site of a gated construct (ModifiedBlock, DesugaredListComp, TensorCall, list displays/types, capturing closures) is "
+        "dominated by its gate; enable/disable save before overwriting and restore unconditionally without swallowing "
+        "exceptions; nobody else writes or copies the flag.",
+        "Trusted: ast parser, per-function CFG (explicit raise edges only). The diagnostic class of a gate is not mandated "
+        "(golden file pins UnsupportedError for closures).",
+        "who-must-call with dominance on the per-function CFG + sibling rule + save/restore ordering",
+        "DESIGN §5 C33",
+    ),
 }
 
 NOT_APPLICABLE: dict[str, str] = {
